@@ -98,38 +98,40 @@ var ErrAbort = errors.New("aborted: disagreement on a facet not judged by this p
 
 // RunStats summarises one executed script (for evidence classes).
 type RunStats struct {
-	Ops               int
-	OpsOnExpired      int // operations applied to an expired-unswept key
-	WritesOnExpired   int // non-read operations applied to an expired-unswept key
-	AutoOverflow      int
-	AutoExpiration    int
-	Loads             int
-	Reloads           int
-	ReloadNotSuccess  int
-	DueReads          int
-	BulkMixed         int
-	OverflowDeadline  int
-	BoundaryProbes    int
-	CrossedMaximum    bool
-	WeightChanges     int
-	LoweredMaximum    int
-	CascadeEntries    int
-	BigJumps          int
-	SweepChecks       int
-	SweepObligations  int
-	QuiesceChecks     int
-	MultiWriteBefore  int // >=2 writes to one key between two maintenance runs
-	PendingAddGone    int // replacement/invalidation of a value whose add task was still unprocessed
-	StatsChecks       int
-	SaveLoads         int
-	SupersededRefresh int
-	Bursts            int
-	SaveLoadExpired   int
-	SaveLoadSurvivor  int
-	Kinds             []string
-	Known             map[string]int
-	Excluded          map[string]int
-	HooksSeen         map[string]int
+	Ops                 int
+	OpsOnExpired        int // operations applied to an expired-unswept key
+	WritesOnExpired     int // non-read operations applied to an expired-unswept key
+	AutoOverflow        int
+	AutoExpiration      int
+	Loads               int
+	Reloads             int
+	ReloadNotSuccess    int
+	DueReads            int
+	BulkMixed           int
+	OverflowDeadline    int
+	BoundaryProbes      int
+	CrossedMaximum      bool
+	WeightChanges       int
+	LoweredMaximum      int
+	CascadeEntries      int
+	BigJumps            int
+	SweepChecks         int
+	SweepObligations    int
+	QuiesceChecks       int
+	MultiWriteBefore    int // >=2 writes to one key between two maintenance runs
+	PendingAddGone      int // replacement/invalidation of a value whose add task was still unprocessed
+	StatsChecks         int
+	SaveLoads           int
+	ReadBursts          int
+	ReadBufferSaturated int
+	SupersededRefresh   int
+	Bursts              int
+	SaveLoadExpired     int
+	SaveLoadSurvivor    int
+	Kinds               []string
+	Known               map[string]int
+	Excluded            map[string]int
+	HooksSeen           map[string]int
 }
 
 // Runner interprets a script against the cache and the model.
@@ -1380,6 +1382,39 @@ func (r *Runner) Step(i int, a *Action) (err error) {
 		}
 		r.takeHooks()
 		r.St.Bursts++
+
+	case "readburst":
+		// far more reads than the lossy read buffer holds between two drains: dropped reads must not change results
+		n := a.N
+		if n <= 0 {
+			n = 40
+		}
+		for j := 0; j < n; j++ {
+			kk := (k + j*(1+a.Sel%5)) % r.Cfg.Keys
+			me := r.M[kk]
+			ml := r.live(me)
+			gv, gok := c.GetIfPresent(kk)
+			if ml {
+				r.hits++
+				if !gok || gv != me.Val {
+					return r.fail(FRet, "read %d of a burst: GetIfPresent(%d) returned (%d,%v), model holds live %s", j, kk, gv, gok, r.descr(me))
+				}
+				r.applyExp(me, "read")
+			} else {
+				r.misses++
+				if gok {
+					return r.fail(r.retFacet(me != nil), "read %d of a burst: GetIfPresent(%d) returned (%d,true), model says absent [entry %s]", j, kk, gv, r.descr(me))
+				}
+			}
+		}
+		r.takeHooks()
+		if l := c.VerifReadBufferLen(); l > 16*64 {
+			return r.fail(FBook, "read buffer holds %d entries", l)
+		}
+		if l := c.VerifReadBufferLen(); l >= 16 {
+			r.St.ReadBufferSaturated++
+		}
+		r.St.ReadBursts++
 
 	case "quiesce":
 		if err = r.Quiesce(); err != nil {
